@@ -192,18 +192,19 @@ class InventoryFileReader:
         self.buffer += chunk
 
     def readline(self) -> str:
-        pos = self.buffer.find(b"\n")
-        if pos != -1:
-            line = self.buffer[:pos].decode()
-            self.buffer = self.buffer[pos + 1 :]
-        elif self.eof:
-            line = self.buffer.decode()
-            self.buffer = b""
-        else:
+        # (a loop, not recursion: a long line delivered in small reads
+        # would otherwise exceed the recursion limit)
+        while True:
+            pos = self.buffer.find(b"\n")
+            if pos != -1:
+                line = self.buffer[:pos].decode()
+                self.buffer = self.buffer[pos + 1 :]
+                return line
+            if self.eof:
+                line = self.buffer.decode()
+                self.buffer = b""
+                return line
             self.read_buffer()
-            line = self.readline()
-
-        return line
 
     def readlines(self) -> Iterator[str]:
         while not self.eof:
